@@ -577,6 +577,11 @@ class Interp:
         v = e.value
         if isinstance(v, (str, type(None), type(Ellipsis))):
             return v
+        ov = getattr(self, "literal_overrides", None)
+        if ov and isinstance(v, float) and repr(v) in ov:
+            # a declared regularisation constant taken in its limit (assumption recorded by the contract)
+            self.ctx.notes.append("literal %r at %s:%d taken as %r (declared regularisation, limit)" % (v, fr.mod.relpath, e.lineno, ov[repr(v)]))
+            return lit(ov[repr(v)])
         return lit(v)
 
     def ex_Name(self, e, fr):
